@@ -93,6 +93,47 @@ def run_merge(db, case):
     return None, got1
 
 
+def check_model(ctx, m, e, k):
+    import gffutils
+    case = {"model": m, "lines": I.model_lines(m)}
+    path = ctx.path("c16_%d.db" % (k % 8))
+    try:
+        d = I.build(m, path)
+        for b in e["bp"]:
+            fid = dec(b["id"])
+            p = d.children_bp(fid, child_featuretype="exon")
+            q = d.children_bp(d[fid], child_featuretype="exon", merge=True)
+            if p != b["plain"]:
+                ctx.violation(case, "children_bp", {"id": fid, "observed": p, "expected": b["plain"]})
+            if q != b["merged"] or b["merged"] != b["union"]:
+                ctx.violation(case, "children_bp_merged", {"id": fid, "observed": q, "expected": b["merged"], "union": b["union"]})
+        d.conn.close()
+        d = gffutils.FeatureDB(path)      # a fresh handle: children_bp(merge=True) advanced the live counters of the old one
+        res = d.merge_all(exclude_components=m["exclude"])
+        d.conn.commit()
+        got = G.canon_snap(dbio.proj_file(path))
+        want = G.canon_snap(e["mergeall"]["db"])
+        # the source of a merged feature is the joined set of its members' sources (all 's' here); bins are not compared
+        orig = set(json.dumps(f["attrs"][0][1][0]) for f in m["feats"])
+        for snap in (want, got):
+            for f in snap["feats"]:
+                if json.dumps(f["id"]) not in orig:       # a stored merged feature: only what the statement names is compared
+                    f["score"] = f["source"] = f["frame"] = []
+        bad = G.diff_clause(want, got)
+        if len(res) != e["mergeall"]["n"]:
+            bad = bad or "merge_all_result_count"
+        if bad:
+            ctx.violation(case, "merge_all:" + bad, {"exclude_components": m["exclude"], "expected_keys": [dec(f["id"]) for f in e["mergeall"]["db"]["feats"]],
+                                                      "observed_keys": [dec(f["id"]) for f in got["feats"]]})
+        d.conn.close()
+    except Exception as ex:  # noqa
+        ctx.violation(case, "raised:" + type(ex).__name__, {"message": str(ex)[:200]})
+    finally:
+        if os.path.exists(path):
+            os.unlink(path)
+    ctx.count(I.model_lines(m), True)
+
+
 def run(ctx):
     thorough = ctx.tier == "thorough"
     ctx.rule = ("D1: every ordered list of <= %s intervals over positions 1..6 x 7 seqid/strand/type patterns x 8 criteria sets (default, any-inclusive, exact, start-inclusive, "
@@ -123,43 +164,7 @@ def run(ctx):
     models = [I.random_model(ctx.rng) for _ in range(2000 if thorough else 250)]
     exp = I.oracle(ctx, models)
     for k, (m, e) in enumerate(zip(models, exp)):
-        case = {"model": m, "lines": I.model_lines(m)}
-        path = ctx.path("c16_%d.db" % (k % 8))
-        try:
-            d = I.build(m, path)
-            for b in e["bp"]:
-                fid = dec(b["id"])
-                p = d.children_bp(fid, child_featuretype="exon")
-                q = d.children_bp(d[fid], child_featuretype="exon", merge=True)
-                if p != b["plain"]:
-                    ctx.violation(case, "children_bp", {"id": fid, "observed": p, "expected": b["plain"]})
-                if q != b["merged"] or b["merged"] != b["union"]:
-                    ctx.violation(case, "children_bp_merged", {"id": fid, "observed": q, "expected": b["merged"], "union": b["union"]})
-            d.conn.close()
-            d = gffutils.FeatureDB(path)      # a fresh handle: children_bp(merge=True) advanced the live counters of the old one
-            res = d.merge_all(exclude_components=m["exclude"])
-            d.conn.commit()
-            got = G.canon_snap(dbio.proj_file(path))
-            want = G.canon_snap(e["mergeall"]["db"])
-            # the source of a merged feature is the joined set of its members' sources (all 's' here); bins are not compared
-            orig = set(json.dumps(f["attrs"][0][1][0]) for f in m["feats"])
-            for snap in (want, got):
-                for f in snap["feats"]:
-                    if json.dumps(f["id"]) not in orig:       # a stored merged feature: only what the statement names is compared
-                        f["score"] = f["source"] = f["frame"] = []
-            bad = G.diff_clause(want, got)
-            if len(res) != e["mergeall"]["n"]:
-                bad = bad or "merge_all_result_count"
-            if bad:
-                ctx.violation(case, "merge_all:" + bad, {"exclude_components": m["exclude"], "expected_keys": [dec(f["id"]) for f in e["mergeall"]["db"]["feats"]],
-                                                          "observed_keys": [dec(f["id"]) for f in got["feats"]]})
-            d.conn.close()
-        except Exception as ex:  # noqa
-            ctx.violation(case, "raised:" + type(ex).__name__, {"message": str(ex)[:200]})
-        finally:
-            if os.path.exists(path):
-                os.unlink(path)
-        ctx.count(I.model_lines(m), True)
+        check_model(ctx, m, e, k)
     ctx.traces += len(models)
     ctx.assumptions += ["merged outputs are compared on seqid, start, end, strand, featuretype, frame and children; their ids only for distinctness; source is not compared",
                         "merge_all stores rows in the order the runs are found; the model inserts them in the same order"]
@@ -176,4 +181,11 @@ def replay(ctx, rec):
             if j["feats"] == c["feats"] and j["crits"] == c["crits"]:
                 return run_merge(db, j)[0] is not None
         return True
+    if "model" in c:
+        # re-run the model-based part on this one gene model: a fresh context collects what still disagrees
+        m = c["model"]
+        e = I.oracle(ctx, [m])[0]
+        n0 = len(ctx.violations)
+        check_model(ctx, m, e, 0)
+        return len(ctx.violations) > n0
     return True
